@@ -843,7 +843,14 @@ pub fn ladder(rng: &mut Rng, cx: Cx) -> Frag {
         }
     };
     let lw = |x: Frag| Frag::Swap(Box::new(Frag::OrI(Box::new(Frag::False), Box::new(Frag::ZeroNotEqual(Box::new(x))))));
-    let choice = match rng.below(11) {
+    // the lock families (8..=10) get a double share
+    let pick = match rng.below(14) {
+        11 => 8,
+        12 => 9,
+        13 => 10,
+        x => x,
+    };
+    let choice = match pick {
         8 => {
             // thresh over keys and two different locks (k ranges over everything sensible)
             let (l1, l2) = lock_pair(rng);
